@@ -2,6 +2,7 @@
 mod c01;
 mod c05;
 mod c13;
+mod c17;
 mod dynamic;
 mod space;
 mod twins;
@@ -16,6 +17,7 @@ fn main() {
         "C01" => c01::run(&args),
         "C05" => c05::run(&args),
         "C13" => c13::run(&args),
+        "C17" => c17::run(&args),
         other => panic!("shapes: unknown property {}", other),
     };
     report.write(&args.out);
